@@ -51,12 +51,14 @@ class CombineOutputs(Operation):
             relative_to_target = pathlib.Path(
                 os.path.relpath(dep_dir, copy_into.parent)
             )
-            if copy_into.exists():
-                if copy_into.is_symlink():
-                    copy_into.unlink()
-                else:
-                    # Unexpected - it should be a symlink.
-                    raise CombineOutputFileConflict(output_file=str(copy_into))
+            if copy_into.is_symlink():
+                # A link from an earlier run. It may be dangling by now (e.g.,
+                # when the version it led to has been removed), in which case
+                # `exists()` would be false.
+                copy_into.unlink()
+            elif copy_into.exists():
+                # Unexpected - it should be a symlink.
+                raise CombineOutputFileConflict(output_file=str(copy_into))
             # The base data may be large, so we use symlinks to avoid copying.
             copy_into.symlink_to(relative_to_target)
 
